@@ -1,5 +1,6 @@
 """C11 - fingerprint operators implement set algebra and pointwise arithmetic (model M2, Properties/C11.v)."""
 import itertools
+import json
 from fractions import Fraction
 import core
 import fpgen
@@ -7,6 +8,7 @@ from fpgen import obs, lit, attempt, result_lit, build
 
 IMPORTS = ['From Coq Require Import QArith.', 'From E3FP Require Import Base.Prelude Base.ZSet Model.Fprint.']
 TOL = '(Qmake 1 1000000000)'
+KEY_RDIV = 'C11:reflected-scalar-division'
 
 BIT_OPS = {  # name -> (python action on (a, b), model function)
     'or': (lambda a, b: a | b, 'fp_or'), 'and': (lambda a, b: a & b, 'fp_and'), 'xor': (lambda a, b: a ^ b, 'fp_xor'),
@@ -25,45 +27,74 @@ def _iop(sym):
     return f
 
 
+def _iscalar(a, sym, x):
+    ns = {'c': a, 'x': x}
+    exec('c %s= x' % sym, ns)
+    return ns['c']
+
+
 for _n, _s, _m in (('ior', '|', 'fp_or'), ('iand', '&', 'fp_and'), ('ixor', '^', 'fp_xor'), ('iadd', '+', 'fp_add'), ('isub', '-', 'fp_sub')):
     BIT_OPS[_n] = (_iop(_s), _m)
 
 REFLECTED = {'ror', 'rand', 'rxor', 'radd'}
+SCALAR_FORMS = ('mul', 'rmul', 'imul', 'div', 'idiv', 'floordiv', 'ifloordiv')
 
 
-def run(ctx):
-    ok, res = core.proof_step(ctx)
-    cases, payloads, mexpr = [], {}, {}
-    rng = ctx.rng
-    found_input = False
-    dist = {'bit_pairs_exhaustive': 0, 'sampled_pairs': 0, 'scalar': 0, 'batch': 0, 'errors_expected': 0, 'by_kind': {}}
+def _obs_result(r, none_ok=False):
+    """('ok', obj) -> ('ok', observation); a result that cannot be observed exactly (nan / inf counts) -> ('bad', text)."""
+    if r[0] != 'ok':
+        return r
+    if none_ok and r[1] is None:
+        return ('ok', None)
+    try:
+        return ('ok', obs(r[1]))
+    except (ValueError, OverflowError) as e:
+        return ('bad', 'result has non-finite counts: %r (%s)' % (dict(r[1].counts), e))
 
-    def add_case(key, expr, payload, model_out):
-        cases.append((key, expr))
-        payloads[key] = payload
-        mexpr[key] = model_out
 
-    def binop_case(tag, sa, sb, opname):
-        nonlocal found_input
+class Runner(object):
+    """Builds the cases (implementation run now, model comparison deferred to `compare`).  Every payload carries a
+    `replay` entry from which `replay()` re-runs exactly that case."""
+
+    def __init__(self, ctx):
+        self.ctx = ctx
+        self.cases, self.payloads, self.mexpr = [], {}, {}
+        self.found_input = False
+        self.dist = {'bit_pairs_exhaustive': 0, 'sampled_pairs': 0, 'scalar': 0, 'scalar_zero': 0, 'reflected_scalar_division': 0,
+                     'batch': 0, 'batch_mixed_length': 0, 'batch_bad_weights': 0, 'negative_positions': 0,
+                     'errors_expected': 0, 'by_kind': {}}
+
+    def add_case(self, key, expr, payload, model_out):
+        self.cases.append((key, expr))
+        self.payloads[key] = payload
+        self.mexpr[key] = model_out
+
+    def fail(self, what, payload, key):
+        self.found_input = True
+        self.ctx.fail(what, payload, finding_key=key)
+
+    # -- a op b in one of the 14 forms
+    def binop(self, tag, sa, sb, opname):
+        ctx, dist = self.ctx, self.dist
+        rp = {'type': 'binop', 'tag': tag, 'sa': fpgen.spec_to_json(sa), 'sb': fpgen.spec_to_json(sb), 'opname': opname}
         pyf, mf = BIT_OPS[opname]
         a, b = build(sa), build(sb)
         oa, ob = obs(a), obs(b)
-        r = attempt(lambda: pyf(a, b))
-        if r[0] == 'ok':
-            r = ('ok', obs(r[1]))
+        r = _obs_result(attempt(lambda: pyf(a, b)))
+        if r[0] == 'bad':
+            return self.fail('operator %s: %s' % (opname, r[1]), {'op': opname, 'a': fpgen.obs_json(obs(a)), 'b': fpgen.obs_json(obs(b)), 'replay': rp}, 'op:' + opname)
         # operands unchanged (part of the property, decided on the implementation directly)
         if obs(a) != oa or obs(b) != ob:
-            found_input = True
-            ctx.fail('operand changed by operator %s' % opname, {'a': fpgen.obs_json(oa), 'b': fpgen.obs_json(ob), 'op': opname,
-                     'a_after': fpgen.obs_json(obs(a)), 'b_after': fpgen.obs_json(obs(b))}, finding_key='operand-mutated:' + opname)
+            self.fail('operand changed by operator %s' % opname, {'a': fpgen.obs_json(oa), 'b': fpgen.obs_json(ob), 'op': opname,
+                      'a_after': fpgen.obs_json(obs(a)), 'b_after': fpgen.obs_json(obs(b)), 'replay': rp}, 'operand-mutated:' + opname)
         la, lb = lit(oa), lit(ob)
         m = '%s %s %s' % (mf, lb, la) if opname in REFLECTED else '%s %s %s' % (mf, la, lb)
         floaty = r[0] == 'ok' and r[1]['kind'] == 'KFloat'
         cmp_ = 'fp_obs_close %s' % TOL if floaty else 'fp_obs_eqb'
-        key = '%s/%s/%d' % (tag, opname, len(cases))
-        add_case(key, 'result_eqb (%s) (%s) %s' % (cmp_, m, result_lit(r)),
-                 {'op': opname, 'a': fpgen.obs_json(oa), 'b': fpgen.obs_json(ob),
-                  'impl': fpgen.obs_json(r[1]) if r[0] == 'ok' else r[1]}, m)
+        key = '%s/%s/%d' % (tag, opname, len(self.cases))
+        self.add_case(key, 'result_eqb (%s) (%s) %s' % (cmp_, m, result_lit(r)),
+                      {'op': opname, 'a': fpgen.obs_json(oa), 'b': fpgen.obs_json(ob),
+                       'impl': fpgen.obs_json(r[1]) if r[0] == 'ok' else r[1], 'replay': rp}, m)
         nontriv = bool(oa['idx']) and bool(ob['idx']) and oa['idx'] != ob['idx']
         ctx.count((opname, oa['kind'], ob['kind'], oa['bits'], tuple(oa['idx']), tuple(ob['idx']), str(oa['cnt']), str(ob['cnt'])), nontriv)
         dist['by_kind'][oa['kind'] + '/' + ob['kind']] = dist['by_kind'].get(oa['kind'] + '/' + ob['kind'], 0) + 1
@@ -71,12 +102,104 @@ def run(ctx):
             dist['errors_expected'] += 1
         return r
 
+    # -- a * x, x * a, a / x, a // x and their in-place forms
+    def scalar(self, sa, x, form):
+        ctx = self.ctx
+        rp = {'type': 'scalar', 'sa': fpgen.spec_to_json(sa), 'x': x, 'form': form}
+        a = build(sa)
+        oa = obs(a)
+        act = {'mul': lambda: a * x, 'rmul': lambda: x * a, 'div': lambda: a / x, 'floordiv': lambda: a // x,
+               'imul': lambda: _iscalar(a, '*', x), 'idiv': lambda: _iscalar(a, '/', x), 'ifloordiv': lambda: _iscalar(a, '//', x)}[form]
+        r = _obs_result(attempt(act))
+        if r[0] == 'bad':
+            return self.fail('scalar operator %s: %s' % (form, r[1]), {'op': form, 'a': fpgen.obs_json(oa), 'x': x, 'replay': rp}, 'op:' + form)
+        if obs(a) != oa:
+            self.fail('operand changed by scalar operator %s' % form, {'a': fpgen.obs_json(oa), 'x': x, 'op': form, 'replay': rp},
+                      'operand-mutated:' + form)
+        mf = 'fp_mul' if 'mul' in form else 'fp_floordiv' if 'floordiv' in form else 'fp_div'
+        m = '%s %s (inject_Z %s)' % (mf, lit(oa), core.zlit(x))
+        key = 'sc/%s/%d' % (form, len(self.cases))
+        self.add_case(key, 'result_eqb (fp_obs_close %s) (%s) %s' % (TOL, m, result_lit(r)),
+                      {'op': form, 'a': fpgen.obs_json(oa), 'x': x, 'impl': fpgen.obs_json(r[1]) if r[0] == 'ok' else r[1], 'replay': rp}, m)
+        ctx.count((form, x, str(oa)), bool(oa['idx']) and x > 1)
+        self.dist['scalar'] += 1
+        self.dist['scalar_zero'] += (x == 0)
+        if r[0] == 'err':
+            self.dist['errors_expected'] += 1
+
+    # -- x / a and x // a: Python calls __rtruediv__ / __rfloordiv__, which the code implements as a / x and a // x.
+    #    Decided on the implementation alone: a result is acceptable only if it is the pointwise x / count (x // count)
+    #    on a's positions; raising TypeError (no such operation) is acceptable as well.
+    def rscalar(self, sa, x, form):
+        rp = {'type': 'rscalar', 'sa': fpgen.spec_to_json(sa), 'x': x, 'form': form}
+        a = build(sa)
+        oa = obs(a)
+        r = attempt((lambda: x / a) if form == 'rdiv' else (lambda: x // a))
+        self.dist['reflected_scalar_division'] += 1
+        cnt = dict(oa['cnt'])
+        self.ctx.count((form, x, str(oa)), bool(cnt))
+        if obs(a) != oa:
+            self.fail('operand changed by reflected scalar operator %s' % form, {'a': fpgen.obs_json(oa), 'x': x, 'op': form, 'replay': rp},
+                      'operand-mutated:' + form)
+        if r[0] != 'ok':
+            return
+        got = dict(obs(r[1])['cnt'])
+        if form == 'rdiv':
+            want = {k: Fraction(x) / c for k, c in cnt.items() if c != 0}
+            bad = any(abs(got.get(k, 0) - w) > Fraction(1, 10 ** 9) * max(1, abs(w)) for k, w in want.items())
+        else:
+            want = {k: Fraction(x) // c for k, c in cnt.items() if c != 0}
+            bad = any(got.get(k, 0) != w for k, w in want.items())
+        if bad:
+            self.fail('%s returned a %s x (every count divided BY the scalar), not the scalar divided by the counts'
+                      % ('x / a' if form == 'rdiv' else 'x // a', '/' if form == 'rdiv' else '//'),
+                      {'a': fpgen.obs_json(oa), 'x': x, 'op': form, 'impl': fpgen.obs_json(obs(r[1])),
+                       'pointwise_x_over_count': [[k, str(v)] for k, v in sorted(want.items())], 'replay': rp}, KEY_RDIV)
+
+    # -- add(fprints, weights) / mean(fprints, weights)
+    def batch(self, specs, ws, which):
+        import e3fp.fingerprint.fprint as FP
+        rp = {'type': 'batch', 'specs': [fpgen.spec_to_json(s) for s in specs], 'ws': None if ws is None else [str(w) for w in ws], 'which': which}
+        fps = [build(s) for s in specs]
+        obss = [obs(f) for f in fps]
+        fws = None if ws is None else [float(w) for w in ws]
+        r = _obs_result(attempt(lambda: (FP.add if which == 'add' else FP.mean)(fps, weights=fws)), none_ok=True)
+        if r[0] == 'bad':
+            return self.fail('batch %s: %s' % (which, r[1]), {'op': 'batch_' + which, 'fps': [fpgen.obs_json(o) for o in obss],
+                             'weights': None if ws is None else [str(w) for w in ws], 'replay': rp}, 'op:batch_' + which)
+        if [obs(f) for f in fps] != obss:
+            self.fail('operand changed by batch %s' % which, {'fps': [fpgen.obs_json(o) for o in obss], 'replay': rp}, 'operand-mutated:batch')
+        wl = 'None' if ws is None else '(Some %s)' % core.listlit([core.qlit(w) for w in ws])
+        m = 'batch_%s %s %s' % (which, core.listlit([lit(o) for o in obss]), wl)
+        exp = '(Raises %s)' % r[1] if r[0] == 'err' else '(Ok None)' if r[1] is None else '(Ok (Some %s))' % lit(r[1])
+        key = 'b/%s/%d' % (which, len(self.cases))
+        self.add_case(key, 'result_eqb (option_eqb (fp_obs_close %s)) (%s) %s' % (TOL, m, exp),
+                      {'op': 'batch_' + which, 'fps': [fpgen.obs_json(o) for o in obss], 'weights': None if ws is None else [str(w) for w in ws],
+                       'impl': (fpgen.obs_json(r[1]) if r[1] is not None else None) if r[0] == 'ok' else r[1], 'replay': rp}, m)
+        self.ctx.count((which, str(obss), str(ws)), len(specs) > 1 and any(o['idx'] for o in obss))
+        self.dist['batch'] += 1
+        if r[0] == 'err':
+            self.dist['errors_expected'] += 1
+
+    def compare(self):
+        nbad = core.compare_cases(self.ctx, self.cases, IMPORTS, 'C11 operators', self.payloads, model_expr=self.mexpr,
+                                  finding_key_of=lambda k, pl: 'op:%s' % pl.get('op'))
+        self.found_input = self.found_input or nbad > 0
+        return nbad
+
+
+def run(ctx):
+    ok, res = core.proof_step(ctx)
+    rng = ctx.rng
+    R = Runner(ctx)
+    dist = R.dist
+
     # 1. exhaustive: all pairs of subsets for small lengths, every operator form
     for bits in ctx.n([1, 2, 3], [1, 2, 3, 4]):
         subsets = [[i for i in range(bits) if (m >> i) & 1] for m in range(2 ** bits)]
         for sa, sb in itertools.product(subsets, subsets):
             for opname in BIT_OPS:
-                binop_case('ex%d' % bits, {'kind': 'KBit', 'bits': bits, 'idx': sa}, {'kind': 'KBit', 'bits': bits, 'idx': sb}, opname)
+                R.binop('ex%d' % bits, {'kind': 'KBit', 'bits': bits, 'idx': sa}, {'kind': 'KBit', 'bits': bits, 'idx': sb}, opname)
                 dist['bit_pairs_exhaustive'] += 1
     # 2. sampled pairs of every kind up to 2^32 (same kind and count/float mixes; a few length mismatches)
     for i in range(ctx.n(250, 4000)):
@@ -87,66 +210,47 @@ def run(ctx):
         sb = fpgen.rand_spec(rng, kind=kb, bits=bits_b, like=sa)
         ops = list(BIT_OPS) if kind == 'KBit' else ['add', 'sub', 'iadd', 'isub', 'radd', 'or', 'and', 'xor']
         for opname in rng.sample(ops, 3):
-            binop_case('s', sa, sb, opname)
+            R.binop('s', sa, sb, opname)
             dist['sampled_pairs'] += 1
-    # 3. scalar * / // on count and float fingerprints, positive integer scalars
-    for i in range(ctx.n(150, 2500)):
+    # 3. scalar * / // on count and float fingerprints: positive integer scalars (the property's domain), plus 0 for / and //
+    #    (division by zero raises only if there is a count to divide), and the reflected divisions x / a, x // a
+    for i in range(ctx.n(190, 3000)):
         kind = rng.choice(['KCount', 'KFloat'])
         sa = fpgen.rand_spec(rng, kind=kind)
-        x = rng.choice([1, 2, 3, 4, 7, 10, 250])
-        a = build(sa)
-        oa = obs(a)
-        form = rng.choice(['mul', 'rmul', 'imul', 'div', 'idiv', 'floordiv', 'ifloordiv'])
-        act = {'mul': lambda: a * x, 'rmul': lambda: x * a, 'div': lambda: a / x, 'floordiv': lambda: a // x,
-               'imul': lambda: _iscalar(a, '*', x), 'idiv': lambda: _iscalar(a, '/', x), 'ifloordiv': lambda: _iscalar(a, '//', x)}[form]
-        r = attempt(act)
-        if r[0] == 'ok':
-            r = ('ok', obs(r[1]))
-        if obs(a) != oa:
-            found_input = True
-            ctx.fail('operand changed by scalar operator %s' % form, {'a': fpgen.obs_json(oa), 'x': x, 'op': form}, finding_key='operand-mutated:' + form)
-        mf = 'fp_mul' if 'mul' in form else 'fp_floordiv' if 'floordiv' in form else 'fp_div'
-        m = '%s %s (inject_Z %d)' % (mf, lit(oa), x)
-        key = 'sc/%s/%d' % (form, len(cases))
-        add_case(key, 'result_eqb (fp_obs_close %s) (%s) %s' % (TOL, m, result_lit(r)),
-                 {'op': form, 'a': fpgen.obs_json(oa), 'x': x, 'impl': fpgen.obs_json(r[1]) if r[0] == 'ok' else r[1]}, m)
-        ctx.count((form, x, str(oa)), bool(oa['idx']) and x > 1)
-        dist['scalar'] += 1
-    # 4. batch sum and (weighted) mean
-    import e3fp.fingerprint.fprint as FP
-    for i in range(ctx.n(150, 2500)):
-        n = rng.choice([1, 2, 2, 3, 4, 6])
+        form = rng.choice(SCALAR_FORMS)
+        x = rng.choice([1, 2, 3, 4, 7, 10, 250] + ([0, 0] if 'div' in form else [0]))
+        R.scalar(sa, x, form)
+        if i % 4 == 0:
+            R.rscalar(sa, rng.choice([2, 3, 10]), rng.choice(['rdiv', 'rfloordiv']))
+    # 4. batch sum and (weighted) mean, including members of different lengths, wrong numbers of weights, zero weight sums
+    for i in range(ctx.n(200, 3000)):
+        n = rng.choice([1, 2, 2, 3, 4, 6]) if rng.random() < 0.97 else 0
         bits = rng.choice([4, 8, 16, 1024, 2 ** 32])
         kinds = [rng.choice(fpgen.KINDS) for _ in range(n)] if rng.random() < 0.5 else [rng.choice(fpgen.KINDS)] * n
         specs = []
         for k in kinds:
             specs.append(fpgen.rand_spec(rng, kind=k, bits=bits, like=specs[0] if specs else None))
-        fps = [build(s) for s in specs]
-        obss = [obs(f) for f in fps]
+        if n >= 2 and rng.random() < 0.15:
+            j = rng.randrange(n)         # one member of another length (position 0 included: it defines the reference length)
+            specs[j] = fpgen.rand_spec(rng, kind=kinds[j], bits=rng.choice([b for b in (8, 16, 64, 2 ** 32) if b != bits]))
+            dist['batch_mixed_length'] += 1
         weighted = rng.random() < 0.5
         ws = [Fraction(rng.choice([1, 1, 2, 3, 5]), rng.choice([1, 2, 4])) for _ in range(n)] if weighted else None
-        which = rng.choice(['add', 'mean'])
-        fws = None if ws is None else [float(w) for w in ws]
-        r = attempt(lambda: (FP.add if which == 'add' else FP.mean)(fps, weights=fws))
-        if r[0] == 'ok':
-            r = ('ok', None if r[1] is None else obs(r[1]))
-        if [obs(f) for f in fps] != obss:
-            found_input = True
-            ctx.fail('operand changed by batch %s' % which, {'fps': [fpgen.obs_json(o) for o in obss]}, finding_key='operand-mutated:batch')
-        wl = 'None' if ws is None else '(Some %s)' % core.listlit([core.qlit(w) for w in ws])
-        m = 'batch_%s %s %s' % (which, core.listlit([lit(o) for o in obss]), wl)
-        exp = '(Raises %s)' % r[1] if r[0] == 'err' else '(Ok None)' if r[1] is None else '(Ok (Some %s))' % lit(r[1])
-        key = 'b/%s/%d' % (which, len(cases))
-        add_case(key, 'result_eqb (option_eqb (fp_obs_close %s)) (%s) %s' % (TOL, m, exp),
-                 {'op': 'batch_' + which, 'fps': [fpgen.obs_json(o) for o in obss], 'weights': None if ws is None else [str(w) for w in ws],
-                  'impl': (fpgen.obs_json(r[1]) if r[1] is not None else None) if r[0] == 'ok' else r[1]}, m)
-        ctx.count((which, str(obss), str(ws)), n > 1 and any(o['idx'] for o in obss))
-        dist['batch'] += 1
-
+        if weighted and rng.random() < 0.2:
+            mode = rng.choice(['short', 'long', 'zero-sum', 'all-zero'])
+            if mode == 'short':
+                ws = ws[:-1]
+            elif mode == 'long':
+                ws = ws + [Fraction(1)]
+            elif mode == 'zero-sum' and n >= 2:
+                ws = ws[:n - 1] + [-sum(ws[:n - 1])]
+            else:
+                ws = [Fraction(0)] * n
+            dist['batch_bad_weights'] += 1
+        R.batch(specs, ws, rng.choice(['add', 'mean']))
     # 5. negative positions: the constructors do not reject them (only positions >= length), so the operators and the
     #    totality theorem (wf_idx bounds positions from above only) must cope with them
     pool = [-9, -3, -1, 0, 2, 7]
-    dist['negative_positions'] = 0
     for i in range(ctx.n(40, 400)):
         kind = rng.choice(fpgen.KINDS)
         specs = []
@@ -160,32 +264,52 @@ def run(ctx):
             specs.append(sp)
         ops = list(BIT_OPS) if kind == 'KBit' else ['add', 'sub', 'iadd', 'isub', 'radd']
         for opname in rng.sample(ops, 2):
-            binop_case('neg', specs[0], specs[1], opname)
+            R.binop('neg', specs[0], specs[1], opname)
             dist['negative_positions'] += 1
 
+    cases, payloads = R.cases, R.payloads
     for k in cases[:3] + cases[len(cases) // 2:len(cases) // 2 + 2] + cases[-2:]:
-        ctx.sample({'case': k[0], 'input_and_implementation_result': payloads[k[0]], 'model_check': k[1][:400]})
-    nbad = core.compare_cases(ctx, cases, IMPORTS, 'C11 operators', payloads, model_expr=mexpr,
-                              finding_key_of=lambda k, pl: 'op:%s' % pl.get('op'))
-    found_input = found_input or nbad > 0
+        pl = {kk: v for kk, v in payloads[k[0]].items() if kk != 'replay'}
+        ctx.sample({'case': k[0], 'input_and_implementation_result': pl, 'model_check': k[1][:400]})
+    R.compare()
     ctx.coverage['rule'] = ('every pair of subsets for bits<=%d x %d operator forms (plain, reflected-commutative, in-place), plus seeded random pairs of '
-                            'every kind up to 2^32 bits, scalar * / // with positive integers, batch add/mean with and without weights; a case is '
-                            'non-trivial when both operands are non-empty and differ (scalar: x>1; batch: >=2 members); distinct by full input' % (ctx.n(3, 4), len(BIT_OPS)))
+                            'every kind up to 2^32 bits, scalar * / // with positive integers (and 0 for / and //), x / a and x // a on the implementation, '
+                            'batch add/mean with and without weights incl. members of different lengths, wrong numbers of weights and zero weight sums; '
+                            'a case is non-trivial when both operands are non-empty and differ (scalar: x>1; batch: >=2 members); distinct by full input'
+                            % (ctx.n(3, 4), len(BIT_OPS)))
     ctx.coverage['input_distribution'] = dist
     ctx.assumptions += ['NumPy set routines (union1d/intersect1d/setdiff1d/setxor1d/unique) and dict arithmetic behave as modelled; exercised by the correspondence only',
-                        '__rsub__ and reflected scalar division are not exercised: with two fingerprint operands Python never calls them (the plain method never returns NotImplemented)']
+                        '__rsub__ is not exercised: with two fingerprint operands Python never calls it (the plain method never returns NotImplemented)',
+                        'x / a and x // a (reflected scalar division) are reachable and implemented as a / x and a // x: checked on the implementation against '
+                        'the pointwise reading and reported under the finding key %s; x * a is checked against the model (fp_mul)' % KEY_RDIV]
     if not ok:
-        core.report_broken_proof(ctx, res, found_input)
-
-
-def _iscalar(a, sym, x):
-    ns = {'c': a, 'x': x}
-    exec('c %s= x' % sym, ns)
-    return ns['c']
+        core.report_broken_proof(ctx, res, R.found_input)
 
 
 def replay(ctx, path):
-    import json
+    """Re-run the recorded case on both sides; exit 1 with a VIOLATION line if it still fails."""
     d = json.load(open(path))
-    print(json.dumps(d, indent=1)[:4000])
-    return 0
+    case = d.get('case', {})
+    rp = case.get('replay') if isinstance(case, dict) else None
+    print('replaying %s: %s' % (path, d.get('what', '')[:200]))
+    if rp is None:
+        ok, res = core.proof_step(ctx)
+        if not ok:
+            core.report_broken_proof(ctx, res, False)
+        return fpgen.finish_replay(ctx, path, 'proof obligations of Properties/C11.v re-checked')
+    R = Runner(ctx)
+    sj = fpgen.spec_from_json
+    if rp['type'] == 'binop':
+        R.binop(rp['tag'], sj(rp['sa']), sj(rp['sb']), rp['opname'])
+    elif rp['type'] == 'scalar':
+        R.scalar(sj(rp['sa']), rp['x'], rp['form'])
+    elif rp['type'] == 'rscalar':
+        R.rscalar(sj(rp['sa']), rp['x'], rp['form'])
+    elif rp['type'] == 'batch':
+        R.batch([sj(s) for s in rp['specs']], None if rp['ws'] is None else [Fraction(w) for w in rp['ws']], rp['which'])
+    else:
+        print('unknown replay type %r' % rp['type'])
+        return 2
+    if R.cases:
+        R.compare()
+    return fpgen.finish_replay(ctx, path, 'case %s' % rp['type'])
